@@ -70,6 +70,7 @@ def chosen_mask(sym, m):
 
 def oracle(ctx, lines, out):
     meta = ctx.c02
+    ctx.c02_out = list(out)
     v, cnt = [], {}
     for i, (sym, ver, level, mask, segs, label) in enumerate(meta):
         o = out[i]
@@ -142,7 +143,26 @@ def extra(ctx):
         if x['key'] not in seen:
             seen.add(x['key'])
             res.append(x)
-    return {'violations': res, 'evaluations': n, 'notes': {'rmqr_count_width_rows_checked': n}}
+    # the declarative symbol of Spec/Symbol.lean (the statement C02Symbol.qr_symbol is about), evaluated by the
+    # Lean driver, against the implementation's output: validates the SPECIFICATION against the code
+    nspec = 0
+    out = getattr(ctx, 'c02_out', None)
+    if ctx.driver and out:
+        idx = [i for i, (sym, ver, level, mask, segs, label) in enumerate(ctx.c02) if sym == 'qr' and mask >= 0 and out[i].startswith('ok ')]
+        sl = [symgen.enc_line('qr', *ctx.c02[i][1:5]).replace('qr.enc', 'qr.spec', 1) for i in idx]
+        so = ctx.lean(sl)
+        nspec = len(sl)
+        bad = 0
+        for i, l, o in zip(idx, sl, so):
+            if o != out[i]:
+                bad += 1
+                if bad <= 2:
+                    sym, ver, level, mask, segs, label = ctx.c02[i]
+                    res.append({'key': 'qr:spec-symbol-mismatch:v%d' % ver, 'lines': [symgen.enc_line('qr', ver, level, mask, segs)], 'expect': o[:120], 'got': out[i][:120],
+                                'detail': 'QR v%d l%d mask %d [%s]: the implementation\'s symbol differs from the declarative symbol of Spec/Symbol.lean (%s)' % (
+                                    ver, level, mask, symgen.show_segs(segs), o[:40] if not o.startswith('ok ') else 'modules differ')})
+        ctx.log('Spec.Symbol vs implementation: %d QR symbols compared, %d differ' % (nspec, bad))
+    return {'violations': res, 'evaluations': n + nspec, 'notes': {'rmqr_count_width_rows_checked': n, 'qr_symbols_compared_with_Spec_Symbol': nspec}}
 
 
 def nontrivial(line, out):
